@@ -184,5 +184,43 @@ func randomCase(r *lib.Rand) Case {
 			}
 		}
 	}
+	// let what is pending become due, and let the on-demand readers take something
+	ops = append(ops, adv(10))
+	for j, k := range readers {
+		if k == "manual" && r.Bool() {
+			ops = append(ops, read(j, r.Range(1, 4)))
+		}
+	}
+	if parked {
+		ops = append(ops, op("release"))
+	}
+	if !closed && r.Intn(3) == 0 {
+		ops = append(ops, op("close"))
+	}
 	return Case{Family: "random", Ops: ops}
+}
+
+// deepRandomCase: a subscriber that never reads gets more than the buffer outstanding, then a random
+// history follows (cancellation of that subscriber somewhere in it).
+func deepRandomCase(r *lib.Rand, cap int) Case {
+	c := randomCase(r)
+	pre := []Op{sub("manual"), rounds(-1, cap+r.Range(0, 2))}
+	// the random part numbers its subscribers from 0: shift them by one
+	var ops []Op
+	cancelled := false
+	for _, o := range c.Ops {
+		switch o.Op {
+		case "cancel", "read", "parksend", "parkexit":
+			o.Sub++
+		}
+		ops = append(ops, o)
+		if !cancelled && r.Intn(4) == 0 {
+			ops = append(ops, cancel(0))
+			cancelled = true
+		}
+	}
+	if !cancelled {
+		ops = append(ops, cancel(0), adv(10))
+	}
+	return Case{Family: "random-deep", Ops: append(pre, ops...), Tries: 2}
 }
